@@ -52,6 +52,11 @@ pub struct TrainCase {
     /// further along (initial offset = train length + this), 0 = the builder's default
     #[serde(default)]
     pub init_offset_extra: f64,
+    /// set-speed only: the sim is assembled by hand from the builder's parts, with the grade
+    /// and curve lookups re-created through the public `path_res::Strap::new` on the already
+    /// extended path (the builder itself only ever calls it on an empty path)
+    #[serde(default)]
+    pub hand_assembled: bool,
 }
 
 pub struct TrainRun {
@@ -147,7 +152,21 @@ pub fn run_case(case: &TrainCase) -> TrainRun {
                 case.trace.iter().map(|x| x.1).collect(),
                 None,
             );
-            if case.and_parts {
+            if case.hand_assembled {
+                let (sim0, _tp, path_tpc, train_res, _fb) = tsb.make_set_speed_train_sim_and_parts(&net, &path, trace.clone(), case.save_interval)?;
+                let state = sim0.state;
+                let mut v = serde_json::to_value(&train_res)?;
+                let grade = altrios_core::train::kind::path_res::Strap::new(path_tpc.grades(), &state)?;
+                let curve = altrios_core::train::kind::path_res::Strap::new(path_tpc.curves(), &state)?;
+                if let Some(strap) = v.get_mut("Strap") {
+                    strap["grade"] = serde_json::to_value(&grade)?;
+                    strap["curve"] = serde_json::to_value(&curve)?;
+                } else {
+                    anyhow::bail!("builder did not return a strap resistance model");
+                }
+                let train_res: altrios_core::train::TrainRes = serde_json::from_value(v)?;
+                Ok(SetSpeedTrainSim::new(sim0.loco_con, state, trace, train_res, path_tpc, case.save_interval))
+            } else if case.and_parts {
                 Ok(tsb.make_set_speed_train_sim_and_parts(&net, &path, trace, case.save_interval)?.0)
             } else {
                 tsb.make_set_speed_train_sim(&net, &path, trace, case.save_interval)
@@ -609,7 +628,7 @@ pub fn gen_set_speed_case(g: &mut Gen, tier: Tier, allow_dummy: bool) -> TrainCa
             v = v_new;
             trace.push((r(t, 1), v));
         }
-        return TrainCase { links, train, mode: 0, trace, save_interval: Some(1), simulation_days: None, init_speed_zero: false, also_real_walk: false, scenario_year: None, and_parts: false, init_offset_extra: 0.0 };
+        return TrainCase { links, train, mode: 0, trace, save_interval: Some(1), simulation_days: None, init_speed_zero: false, also_real_walk: false, scenario_year: None, and_parts: false, init_offset_extra: 0.0, hand_assembled: false };
     }
     let o = ChainOpts { max_links: 6, len_weights: [6, 3, 1], ..Default::default() };
     let ahead = g.grid(400.0, 6000.0, 14);
@@ -620,7 +639,7 @@ pub fn gen_set_speed_case(g: &mut Gen, tier: Tier, allow_dummy: bool) -> TrainCa
     let init_offset_extra = if g.bool(0.3) && room > 50.0 { r(g.f64(1.0, room * 0.7), 1) } else { 0.0 };
     // consistent inputs: the trace starts at the train's initial time and speed
     let trace = gen_trace(g, total - tp.length - init_offset_extra - 20.0, 30.0, train.init_time, max_steps);
-    TrainCase { links, train, mode: 0, trace, save_interval: Some(1), simulation_days: None, init_speed_zero: false, also_real_walk: false, scenario_year: None, and_parts: false, init_offset_extra }
+    TrainCase { links, train, mode: 0, trace, save_interval: Some(1), simulation_days: None, init_speed_zero: false, also_real_walk: false, scenario_year: None, and_parts: false, init_offset_extra, hand_assembled: false }
 }
 
 // ---------------------------------------------------------------------------------------
